@@ -217,8 +217,13 @@ fn check_case(ctx: &mut Ctx, c: &Case) {
     for (route, r) in routes {
         match r {
             Ok(v) => {
-                let same = v == rl && to_bytes(&v) == bytes;
-                ctx.require(|| format!("RLVector.route({})", route), same, || json!({"bv": case(), "call": route}), || json!({"observed": "vector differs from the one built run by run", "len": v.len(), "ones": v.count_ones()}));
+                // Same length, counts and maximal runs (identical representation is C11's statement).
+                let same = guard(|| v.len() == rl.len() && v.count_ones() == rl.count_ones() && v.run_iter().eq(rl.run_iter()));
+                ctx.expect(|| format!("RLVector.route({})[runs and counts]", route), same, &true, || json!({"bv": case(), "call": route}));
+                let mut q2 = if m.len <= 64 { Queries::exhaustive(&m) } else { Queries::edges(&m, &[], &[], 12, false) };
+                q2.full_iters = false;
+                let name = format!("RLVector(route {})", route);
+                check_bitvec!(ctx, &v, &m, &name, &q2, case);
             }
             Err(msg) => ctx.panic_violation(&format!("RLVector.route({})", route), &msg, None, || json!({"bv": case(), "call": route})),
         }
